@@ -438,3 +438,167 @@ Proof.
   intros hd mid rest n Hn H. rewrite H, skipn_app_exact by reflexivity.
   apply firstn_app_exact. unfold len. lia.
 Qed.
+
+Ltac use_flags lem :=
+  let F1 := fresh "Fle" in let F2 := fresh "Ff1" in let F3 := fresh "Ff2" in
+  let F4 := fresh "Ff3" in let F5 := fresh "Ff4" in
+  pose proof lem as (F1 & F2 & F3 & F4 & F5); cbv zeta in F1, F2, F3, F4, F5.
+
+Lemma rt_acknack : forall e f rid wid st c rest, wfp (AckNack f rid wid st c) ->
+  fst (parse_acknack (flags_octet e [f]) (enc_body e (AckNack f rid wid st c) ++ rest)) = Ok (AckNack f rid wid st c).
+Proof.
+  intros e f rid wid st c rest (H1 & H2 & H3 & H4). use_flags (flags1 e f).
+  unfold parse_acknack. rewrite Fle, Ff1. apply run_rd. cbn [enc_body].
+  eapply rd_bind; [apply rd_eid; exact H1|]. eapply rd_bind; [apply rd_eid; exact H2|].
+  eapply rd_bind; [apply rd_snset; exact H3|].
+  apply rd_bind_ret with (g := fun c => AckNack f rid wid st c). apply rd_i32; exact H4.
+Qed.
+Lemma rt_gap : forall e rid wid start gl rest, wfp (Gap rid wid start gl) ->
+  fst (parse_gap (flags_octet e []) (enc_body e (Gap rid wid start gl) ++ rest)) = Ok (Gap rid wid start gl).
+Proof.
+  intros e rid wid start gl rest (H1 & H2 & H3 & H4). use_flags (flags0 e).
+  unfold parse_gap. rewrite Fle. apply run_rd. cbn [enc_body].
+  eapply rd_bind; [apply rd_eid; exact H1|]. eapply rd_bind; [apply rd_eid; exact H2|].
+  eapply rd_bind; [apply rd_sn; exact H3|].
+  apply rd_bind_ret with (g := fun g => Gap rid wid start g). apply rd_snset; exact H4.
+Qed.
+Lemma rt_heartbeat : forall e f l rid wid a b c rest, wfp (Heartbeat f l rid wid a b c) ->
+  fst (parse_heartbeat (flags_octet e [f; l]) (enc_body e (Heartbeat f l rid wid a b c) ++ rest)) = Ok (Heartbeat f l rid wid a b c).
+Proof.
+  intros e f l rid wid a b c rest (H1 & H2 & H3 & H4 & H5). use_flags (flags2 e f l).
+  unfold parse_heartbeat. rewrite Fle, Ff1, Ff2. apply run_rd. cbn [enc_body].
+  eapply rd_bind; [apply rd_eid; exact H1|]. eapply rd_bind; [apply rd_eid; exact H2|].
+  eapply rd_bind; [apply rd_sn; exact H3|]. eapply rd_bind; [apply rd_sn; exact H4|].
+  apply rd_bind_ret with (g := fun c => Heartbeat f l rid wid a b c). apply rd_i32; exact H5.
+Qed.
+Lemma rt_heartbeat_frag : forall e rid wid sn lf c rest, wfp (HeartbeatFrag rid wid sn lf c) ->
+  fst (parse_heartbeat_frag (flags_octet e []) (enc_body e (HeartbeatFrag rid wid sn lf c) ++ rest)) = Ok (HeartbeatFrag rid wid sn lf c).
+Proof.
+  intros e rid wid sn lf c rest (H1 & H2 & H3 & H4 & H5). use_flags (flags0 e).
+  unfold parse_heartbeat_frag. rewrite Fle. apply run_rd. cbn [enc_body].
+  eapply rd_bind; [apply rd_eid; exact H1|]. eapply rd_bind; [apply rd_eid; exact H2|].
+  eapply rd_bind; [apply rd_sn; exact H3|]. eapply rd_bind; [apply rd_u32_in; exact H4|].
+  apply rd_bind_ret with (g := fun c => HeartbeatFrag rid wid sn lf c). apply rd_i32; exact H5.
+Qed.
+Lemma rt_nack_frag : forall e rid wid sn st c rest, wfp (NackFrag rid wid sn st c) ->
+  fst (parse_nack_frag (flags_octet e []) (enc_body e (NackFrag rid wid sn st c) ++ rest)) = Ok (NackFrag rid wid sn st c).
+Proof.
+  intros e rid wid sn st c rest (H1 & H2 & H3 & H4 & H5). use_flags (flags0 e).
+  unfold parse_nack_frag. rewrite Fle. apply run_rd. cbn [enc_body].
+  eapply rd_bind; [apply rd_eid; exact H1|]. eapply rd_bind; [apply rd_eid; exact H2|].
+  eapply rd_bind; [apply rd_sn; exact H3|]. eapply rd_bind; [apply rd_fnset; exact H4|].
+  apply rd_bind_ret with (g := fun c => NackFrag rid wid sn st c). apply rd_i32; exact H5.
+Qed.
+Lemma rt_info_dst : forall e p rest, wfp (InfoDst p) ->
+  fst (parse_info_dst (flags_octet e []) (enc_body e (InfoDst p) ++ rest)) = Ok (InfoDst p).
+Proof.
+  intros e p rest H. unfold parse_info_dst. apply run_rd. cbn [enc_body].
+  apply rd_bind_ret with (g := fun p => InfoDst p). apply rd_read_n; exact H.
+Qed.
+Lemma rt_info_src : forall e a b c rest, wfp (InfoSrc a b c) ->
+  fst (parse_info_src (flags_octet e []) (enc_body e (InfoSrc a b c) ++ rest)) = Ok (InfoSrc a b c).
+Proof.
+  intros e a b c rest (H1 & H2 & H3). use_flags (flags0 e).
+  unfold parse_info_src. rewrite Fle. apply run_rd. cbn [enc_body].
+  eapply rd_bind.
+  { assert (G : rd (read_i32 e) (enc_int e 4 0) 0) by (apply rd_i32; unfold in_i32, i32_min, i32_max; lia).
+    destruct e; exact G. }
+  eapply rd_bind; [apply rd_read_n; exact H1|]. eapply rd_bind; [apply rd_read_n; exact H2|].
+  apply rd_bind_ret with (g := fun p => InfoSrc a b p). apply rd_read_n; exact H3.
+Qed.
+Lemma rt_info_ts : forall e i s f rest, wfp (InfoTs i s f) ->
+  fst (parse_info_ts (flags_octet e [i]) (enc_body e (InfoTs i s f) ++ rest)) = Ok (pcanon (InfoTs i s f)).
+Proof.
+  intros e i s f rest (H1 & H2). use_flags (flags1 e i).
+  unfold parse_info_ts. rewrite Fle, Ff1. destruct i; [reflexivity|]. apply run_rd. cbn [enc_body pcanon].
+  eapply rd_bind; [apply rd_u32_in; exact H1|].
+  apply rd_bind_ret with (g := fun f => InfoTs false s f). apply rd_u32_in; exact H2.
+Qed.
+Lemma rt_info_reply : forall e m u mu rest, wfp (InfoReply m u mu) ->
+  fst (parse_info_reply (flags_octet e []) (enc_body e (InfoReply m u mu) ++ rest)) = Ok (pcanon (InfoReply m u mu)).
+Proof.
+  intros e m u mu rest (H1 & H2 & H3). subst m. use_flags (flags0 e).
+  unfold parse_info_reply. rewrite Fle, Ff1. apply run_rd. cbn [enc_body pcanon]. rewrite app_nil_r.
+  rewrite <- (app_nil_r (enc_locator_list e u)).
+  eapply rd_bind; [apply rd_locator_list; auto|].
+  change (@nil Z) with (@nil Z ++ []).
+  eapply rd_bind; [apply rd_pret|apply rd_pret].
+Qed.
+
+Lemma rt_data : forall e q d k n rid wid sn qos pl rest,
+  wfp (Data q d k n rid wid sn qos pl) ->
+  len (enc_body e (Data q d k n rid wid sn qos pl)) <= 65535 ->
+  fst (parse_data (flags_octet e [q; d; k; n]) (len (enc_body e (Data q d k n rid wid sn qos pl)))
+                  (enc_body e (Data q d k n rid wid sn qos pl) ++ rest)) = Ok (pcanon (Data q d k n rid wid sn qos pl)).
+Proof.
+  intros e q d k n rid wid sn qos pl rest (H1 & H2 & H3 & H4) HL. use_flags (flags4 e q d k n).
+  cbn [enc_body pcanon] in *.
+  set (qp := if q then enc_param_list e qos else []) in *.
+  set (pp := if d || k then pl else []) in *.
+  set (hd := enc_int e 2 0 ++ enc_int e 2 16 ++ rid ++ wid ++ enc_sn e sn).
+  assert (Ehd : length hd = 20%nat).
+  { unfold hd. rewrite !app_length, !enc_int_length, H1, H2. pose proof (len_enc_sn e sn) as E. unfold len in E. lia. }
+  assert (Ebody : enc_int e 2 0 ++ enc_int e 2 16 ++ rid ++ wid ++ enc_sn e sn ++ qp ++ pp = hd ++ (qp ++ pp)).
+  { unfold hd. rewrite <- !app_assoc. reflexivity. }
+  rewrite Ebody in *. clear Ebody.
+  assert (EL : len (hd ++ qp ++ pp) = 20 + len (qp ++ pp)) by (rewrite len_app; unfold len at 1; rewrite Ehd; reflexivity).
+  rewrite <- (app_assoc hd).
+  erewrite parse_data_fst with (o2q := 20) (s1 := (qp ++ pp) ++ rest) (qos := if q then map pad_param qos else []) (rest := pp).
+  - rewrite Ff1, Ff2, Ff3, Ff4. fold pp. reflexivity.
+  - rewrite app_assoc. apply shorter_app_false. lia.
+  - rewrite Fle. unfold hd. rewrite <- !app_assoc.
+    eapply rd_bind; [apply rd_u16|]. eapply rd_bind; [apply rd_u16|].
+    eapply rd_bind; [apply rd_eid; exact H1|]. eapply rd_bind; [apply rd_eid; exact H2|].
+    change (16 mod 65536 + 4) with 20.
+    apply rd_bind_ret with (g := fun s => (20, rid, wid, s)). apply rd_sn; exact H3.
+  - pose proof (len_nonneg _ (qp ++ pp)). destruct (Z.eqb_spec (len (hd ++ qp ++ pp)) 0); [lia|].
+    apply Z.ltb_ge. lia.
+  - pose proof (len_nonneg _ (qp ++ pp)). destruct (Z.eqb_spec (len (hd ++ qp ++ pp)) 0); [lia|].
+    rewrite Ff1, Fle.
+    replace (len (hd ++ qp ++ pp)) with (len hd + len (qp ++ pp)) by (rewrite len_app; reflexivity).
+    rewrite app_assoc, <- (app_assoc hd), region_exact by (rewrite ?Ehd; lia || reflexivity).
+    unfold qp. destruct q.
+    + apply rd_param_list; [exact H4|]. fold qp. rewrite len_app in EL, HL. pose proof (len_nonneg _ pp). lia.
+    + reflexivity.
+Qed.
+
+Lemma rt_data_frag : forall e q k n rid wid sn fs fc fz ds qos pl rest,
+  wfp (DataFrag q k n rid wid sn fs fc fz ds qos pl) ->
+  len (enc_body e (DataFrag q k n rid wid sn fs fc fz ds qos pl)) <= 65535 ->
+  fst (parse_data_frag (flags_octet e [q; k; n]) (len (enc_body e (DataFrag q k n rid wid sn fs fc fz ds qos pl)))
+                  (enc_body e (DataFrag q k n rid wid sn fs fc fz ds qos pl) ++ rest))
+    = Ok (pcanon (DataFrag q k n rid wid sn fs fc fz ds qos pl)).
+Proof.
+  intros e q k n rid wid sn fs fc fz ds qos pl rest (H1 & H2 & H3 & H4 & H5 & H6 & H7 & H8) HL. use_flags (flags3 e q k n).
+  cbn [enc_body pcanon] in *.
+  set (qp := if q then enc_param_list e qos else []) in *.
+  set (hd := enc_int e 2 0 ++ enc_int e 2 28 ++ rid ++ wid ++ enc_sn e sn ++ enc_int e 4 fs ++ enc_int e 2 fc ++ enc_int e 2 fz ++ enc_int e 4 ds).
+  assert (Ehd : length hd = 32%nat).
+  { unfold hd. rewrite !app_length, !enc_int_length, H1, H2. pose proof (len_enc_sn e sn) as E. unfold len in E. lia. }
+  assert (Ebody : enc_int e 2 0 ++ enc_int e 2 28 ++ rid ++ wid ++ enc_sn e sn ++ enc_int e 4 fs ++ enc_int e 2 fc ++
+                  enc_int e 2 fz ++ enc_int e 4 ds ++ qp ++ pl = hd ++ (qp ++ pl)).
+  { unfold hd. rewrite <- !app_assoc. reflexivity. }
+  rewrite Ebody in *. clear Ebody.
+  assert (EL : len (hd ++ qp ++ pl) = 32 + len (qp ++ pl)) by (rewrite len_app; unfold len at 1; rewrite Ehd; reflexivity).
+  rewrite <- (app_assoc hd).
+  erewrite parse_data_frag_fst with (o2q := 32) (s1 := (qp ++ pl) ++ rest) (qos := if q then map pad_param qos else []) (rest := pl).
+  - rewrite Ff1, Ff2, Ff3. reflexivity.
+  - rewrite app_assoc. apply shorter_app_false. lia.
+  - rewrite app_assoc. apply shorter_app_false. pose proof (len_nonneg _ (qp ++ pl)). lia.
+  - rewrite Fle. unfold hd. rewrite <- !app_assoc.
+    eapply rd_bind; [apply rd_u16|]. eapply rd_bind; [apply rd_u16|].
+    eapply rd_bind; [apply rd_eid; exact H1|]. eapply rd_bind; [apply rd_eid; exact H2|].
+    eapply rd_bind; [apply rd_sn; exact H3|]. eapply rd_bind; [apply rd_u32_in; exact H4|].
+    eapply rd_bind; [apply rd_u16_in; exact H5|]. eapply rd_bind; [apply rd_u16_in; exact H6|].
+    change (28 mod 65536 + 4) with 32.
+    apply rd_bind_ret with (g := fun x => (32, rid, wid, sn, fs, fc, fz, x)). apply rd_u32_in; exact H7.
+  - pose proof (len_nonneg _ (qp ++ pl)). destruct (Z.eqb_spec (len (hd ++ qp ++ pl)) 0); [lia|].
+    apply Z.ltb_ge. lia.
+  - pose proof (len_nonneg _ (qp ++ pl)). destruct (Z.eqb_spec (len (hd ++ qp ++ pl)) 0); [lia|].
+    rewrite Ff1, Fle.
+    replace (len (hd ++ qp ++ pl)) with (len hd + len (qp ++ pl)) by (rewrite len_app; reflexivity).
+    rewrite app_assoc, <- (app_assoc hd), region_exact by (rewrite ?Ehd; lia || reflexivity).
+    unfold qp. destruct q.
+    + apply rd_param_list; [exact H8|]. fold qp. rewrite len_app in EL, HL. pose proof (len_nonneg _ pl). lia.
+    + reflexivity.
+Qed.
